@@ -53,8 +53,13 @@ Section View.
             (fix go (ph : list (N * ty)) (vs : list val) {struct vs} : option (ty * val) :=
                match ph, vs with
                | (o, ft) :: ph', fv :: vs' =>
-                   if ((o <=? off) && (off <? o + sizeof e ft)) || ((o =? off) && (sizeof e ft =? 0) && want ft)
-                   then view want ft fv (off - o) else go ph' vs'
+                   if (o <=? off) && (off <? o + sizeof e ft) then view want ft fv (off - o)
+                   else if (o =? off) && (sizeof e ft =? 0)
+                        then match view want ft fv 0 with          (* a zero-size field at this address: look inside, else go on *)
+                             | Some x => Some x
+                             | None => go ph' vs'
+                             end
+                        else go ph' vs'
                | _, _ => None
                end) ph vs
         | _ => None
